@@ -345,7 +345,7 @@ PROPS["C10"] = dict(
 )
 
 PROPS["C04"] = dict(
-    modules=["Morlock.Props.C04", "Morlock.Props.C16", "Morlock.Props.C03"],
+    modules=["Morlock.Props.C04", "Morlock.Props.Audit.C04Answered", "Morlock.Props.C16", "Morlock.Props.C03"],
     streams=["ucidet", "ucirace"],
     timeout=dict(quick=900, thorough=6000),
     level_text="Tie (decides the property): (a) deterministic sessions (go depth N, repeated go, hash on/off, root where a draw can be claimed): exactly one bestmove, equal to the one the "
@@ -353,18 +353,22 @@ PROPS["C04"] = dict(
                "five engine wirings (plain, morlock+hash, turochamp, sargon+book, bernstein+book; noise on): go infinite + stop, movetime, clocks, go during search, old movetime timers, "
                "judged by a trace monitor: every go that ends or is stopped gets exactly one bestmove, legal in the position of THAT go, null only without legal moves. "
                "Lean (small-step model UciConc of the command loop, forwarders, timers, engine mutex and searches; every schedule, every command list): C04.answered - in every quiescent "
-               "state the latest go that ended by itself (finite / movetime / book hit) or was stopped, and was not superseded, has exactly one bestmove and one commit; "
-               "C16.at_most_one - never more than one bestmove per go; C03.pv - the PV's first move is a legal explored move.",
+               "state (all input consumed, nothing left to do) the LATEST go that ended by itself (finite / movetime / book hit) or was stopped, and was not superseded, has exactly one bestmove and "
+               "one commit (an earlier go that ended before the next command is covered by applying the theorem to the prefix of the commands; no lemma composes prefixes); "
+               "C16.at_most_one - never more than one bestmove per go (all ids); C03.pv - IF the PV is non-empty its first move attains the value. That the move printed is legal and "
+               "null only without legal moves is not in UciConc at all (there a PV is a depth): it is decided by the streams against the reference.",
     level_note="Trusted: Lean kernel; Driver.Uci tied exactly on deterministic scripts; real goroutine scheduling and timers are only exercised through scripted interleavings "
                "(gated evaluator, sleeps) - partial by nature.",
     technique="differential + monitored scripted interleavings of the real UCI driver; Lean search-PV theorem",
     rule="deterministic scripts as in C10 with go; 30 (quick) / 400 (thorough) interleaving scripts over 10 scenario families x 5 engines; non-trivial = distinct script",
-    partial=["the small-step model UciConc is tied to the code only under the canonical schedule (on every deterministic script its visible events must equal those of the sequential model, which the stream ties to the real driver) and through the scripted interleavings; real scheduler/timers are exercised, not enumerated"],
+    partial=["the small-step model UciConc is tied to the code only under the canonical schedule (on every deterministic script of go / go depth n its visible events must equal those of the sequential model, which the stream "
+             "ties to the real driver) and through the scripted interleavings; real scheduler/timers are exercised, not enumerated",
+             "'at least one bestmove' is a theorem for the latest go of a quiescent state only; legality / null-move of the printed move: streams only"],
     modelled=UCI_MODELLED,
 )
 
 PROPS["C16"] = dict(
-    modules=["Morlock.Props.C16", "Morlock.Props.C04"],
+    modules=["Morlock.Props.C16", "Morlock.Props.Audit.C16Superseded", "Morlock.Props.C04", "Morlock.Props.Audit.C04Answered"],
     streams=["ucirace"],
     timeout=dict(quick=900, thorough=6000),
     level_text="Tie (decides the property): interleaving scripts against the real driver, each in a child process so that a crash in any goroutine is observed: a search parked inside a "
@@ -372,32 +376,46 @@ PROPS["C16"] = dict(
                "from earlier searches. The trace monitor demands: no crash, no hang, every isready answered, no bestmove in windows where no search may report, every bestmove legal "
                "in the position of the go it answers (a stale answer of a superseded search is illegal there by construction: side to move differs), clean shutdown on quit and EOF. "
                "Lean (small-step model UciConc; every schedule and command list): no_stale_partial - a search can only commit (win the compare-and-swap that entitles it to print) while it is "
-               "the most recent go; active_zero_or_latest; at_most_one; no_send_after_close (the model's image of 'no crash'); closed_after_forwarders; readyok / readyok_between - every "
+               "the most recent go; no_commit_when_superseded (Audit.C16Superseded) - once the loop has handled ANY superseding command (position, ucinewgame, stop, a malformed go, quit, end of input) "
+               "the active id is 0, so no forwarder or timer of the old search can commit; active_zero_or_latest; at_most_one; no_send_after_close (the only 'no crash' fact the model can "
+               "express: a panic inside a search goroutine - such as the two crashes repaired in 552dec5 / f849efd - is outside it and is the business of the child-process scripts); "
+               "C04.quiescent_shape (no deadlock at rest: the loop has finished or waits for input; the output channel is an unbounded log in the model, capacity 100 in the code); closed_after_forwarders; readyok / readyok_between - every "
                "isready is answered before the next command is consumed; clean_shutdown and quit_is_final; decided witnesses that the pre-repair designs (boolean active, close without "
                "waiting) violate them. Boundary proved by witness: between a forwarder's commit and its send the loop may already have consumed the next go "
                "(stale_send_possible, stale_window_possible) - from outside indistinguishable from a bestmove sent just before that go arrived, so 'stale' is read at the commit point.",
     level_note="Trusted: the Go runtime; scripted interleavings cover chosen schedules only; data races are checked by the race detector in the thorough tier. Partial by nature.",
     technique="fault/interleaving enumeration through a gated evaluator + trace monitor; race detector",
     rule="10 scenario families (supersede, infinite+stop, isready during search, shutdown during search, stale movetime timer, time limits, malformed lines, go during search, abandon search, bundled engines) x random parameters; non-trivial = distinct script",
-    partial=["no_stale holds at the commit point, not at the send (inherent: forwarders send on their own; two decided schedules show it); UciConc is tied under the canonical schedule (ucidet conformance) and by the scripted interleavings only; real scheduler not enumerated"],
+    partial=["no_stale holds at the commit point, not at the send (inherent: forwarders send on their own; two decided schedules show it)",
+             "UciConc is compared with the code only under the canonical schedule and only for scripts of `go` / `go depth n`, position lines and isready (events readyok / bestmove of go k); its transitions for infinite, "
+             "movetime timers, book hits, stop after a commit and ponder are never compared line by line: they are exercised by the scripted interleavings and judged by the monitor",
+             "crashes inside goroutines the model abstracts (search, timers) are visible only to the child-process scripts; real scheduler not enumerated; no liveness theorem"],
     modelled=UCI_MODELLED,
 )
 
 PROPS["C15"] = dict(
-    modules=["Morlock.Props.C15", "Morlock.Props.C15Limits", "Morlock.Props.C03"],
+    modules=["Morlock.Props.C15", "Morlock.Props.C15Limits", "Morlock.Props.Audit.C15Halt", "Morlock.Props.C03"],
     streams=["c15"],
-    level_text="Lean theorem: for every clock 0 <= remaining < 2^62 ns and every moves-to-go < 2^31, TimeControl.Limits gives 0 <= soft <= hard <= remaining (int64 wrap-around and "
-               "truncating division explicit). C03.search_exact gives what each iteration returns. Tie: (a) Limits on a dense grid + random 62-bit values, impl vs model exact; "
+    level_text="Lean theorem: for every clock 0 <= remaining < 2^62 ns and EVERY int64 moves-to-go (the uci parser accepts any integer), TimeControl.Limits gives 0 <= soft <= hard <= "
+               "remaining and none of its divisions can panic (C15Limits.hard_le_remaining, divisor_ok; int64 wrap-around and truncating division explicit; a negative clock is outside: "
+               "remaining = -80 gives hard = -3). That each iteration returns what a direct fixed-depth search returns is not a theorem of the small-step model (there `search d` is a function "
+               "of the depth by assumption): it is C11.sequence / C18.state_irrelevant for the search model and the stream for the code. Tie: (a) Limits on a dense grid + random 62-bit values, impl vs model exact; "
                "(b) Engine.Analyze with depth limits on generated positions: every PV seen is compared with a direct fixed-depth AlphaBeta.Search at that depth (score and PV), depths "
                "strictly increasing, the last depth equals the model's prediction (limit, or first depth with a forced mate within the depth), Halt afterwards returns that last "
                "iteration, the engine's own game untouched; (c) a halt requested while depth 1 is still running (search parked inside a gated evaluator) returns only after depth 1 and "
                "returns a completed iteration at least as deep as any reported before. Lean small-step model IterConc (searcher, watcher, any number of Halt callers incl. the hard timer, consumer; "
-               "every schedule): reports_in_order (the PVs sent are search 1, 2, ... in order), stops_at_limit, halt_after_depth1, halt_monotone, cancelled_only_after_quit, limits_ordered.",
+               "every schedule): reports_in_order (the PVs SENT are search 1, 2, ... in order; what a consumer receives is a subsequence - the capacity-1 channel keeps the latest), "
+               "stops_at_limit, halt_returns_depth1 (Audit.C15Halt: every completed Halt call returns a PV of depth >= 1 - in the model, which has no parent-context cancellation and no search "
+               "error: with those the real code can return the empty PV), halt_after_depth1, halt_monotone, cancelled_only_after_quit, limits_ordered. Liveness ('otherwise runs until halted', the "
+               "searcher exits after a halt) is not a theorem: the models give safety and 'quiescent => good'.",
     level_note="Trusted: Lean kernel; Model.TimeCtl tied exactly; real timers/goroutine scheduling exercised through the gate only (partial by nature).",
     technique="Lean 4 proof of the time-limit arithmetic + differential iterative deepening vs fixed-depth searches + gated halts",
-    rule="limits: 16x11x2x2 grid + 2000 random (w,b,moves); iter: 40 lines x depth limit 1-5; iterhalt: 20 positions x gate 1-40; non-trivial = distinct parameters / script",
-    partial=["IterConc is tied to the code under the canonical schedule (every iter op: the small-step model must report depths 1..d and stop exactly where the implementation did) and by the gated-halt scenarios; real timers exercised through the gate only"],
-    modelled=["search/searchctl/timectrl.go: TimeControl.Limits -> Model.TimeCtl; iterative.go process loop (sequential reading) -> Driver.Misc.iterOp over Model.Search"],
+    rule="limits: 16x19x2x2 grid (moves-to-go up to 2^63-1 and negative) + 2000 random (w,b,moves); iter: 40 lines x depth limit 1-5; iterx: 40 analyses on the four bundled wirings + mated-beyond-depth positions; "
+         "iterseq: two analyses on one engine; iterhalt: 20 positions x gate 1-40; non-trivial = distinct parameters / script",
+    partial=["IterConc is tied to the code only indirectly: on every iter op the small-step model run under the canonical schedule must stop where the SEQUENTIAL model does, and the stream ties the sequential model "
+             "to the code (last depth, scores, PVs); gated-halt scenarios exercise its conclusions on the real code; real timers through the gate only",
+             "no liveness theorem; parent-context cancellation and search errors are not modelled (with them Halt can return the empty PV); the clock must not be negative"],
+    modelled=["search/searchctl/timectrl.go: TimeControl.Limits -> Model.TimeCtl; iterative.go process loop -> Driver.Misc.iterOp over Model.Search (sequential) and Model.IterConc (small-step: searcher, watcher, Halt callers, consumer)"],
 )
 
 PROPS["C17"] = dict(
@@ -410,12 +428,14 @@ PROPS["C17"] = dict(
                "at quiescence Used()*entries equals the number of occupied slots and no slot holds an entry of smaller replacement value than a store that reported success; "
                "a rendezvous phase makes stores overlap tightly (one high-value store vs low ones on a fresh slot; every writer occupying its own fresh slot at the same moment). "
                "Lean small-step model TTConc (load / compare / CAS / atomic add as separate steps, any number of threads and slots, every schedule): no_mixture (a successful lookup returns "
-               "exactly the node one Write call for that hash published), replace_le and slot_val_mono, used_exact(_quiescent), used_range, and seq_refines: non-overlapping calls behave "
+               "exactly the node one Write call for that hash published - this certifies the compare-and-swap PROTOCOL; that a published node is never written again and that reading its fields "
+               "after the atomic load cannot tear is an ASSUMPTION of the model (nodes are immutable values there), checked on the code only by the stress stream and the race detector), replace_le and slot_val_mono, used_exact(_quiescent), used_range, and seq_refines: non-overlapping calls behave "
                "exactly like the sequential Model.TT that the streams tie to the code; decided witness that the pre-repair plain increment loses updates.",
     level_note="Trusted: the Go memory model is only observed through the race detector on the runs made (partial by nature); Model.TT tied exactly on sequential histories.",
     technique="differential sequential table ops + concurrent stress with self-describing payloads + race detector; Lean table model",
     rule="300 sequential scripts (10-50 ops, 2-13 hashes, 5 sizes); 6 stress runs (2-6 writers, 1-4 readers, 2-200 hashes, 30000 stores each) + race-detector run; non-trivial = distinct script",
-    partial=["'no data race' in the sense of the Go memory model is outside any model: race detector on the runs made (thorough tier)"],
+    partial=["'no data race' in the sense of the Go memory model is outside any model: race detector on the runs made (quick and thorough tier)",
+             "immutability of published nodes is assumed by TTConc (tear-freedom of a lookup is therefore by construction in the model); decided on the code by self-describing payloads under stress + race detector"],
     modelled=["search/transposition.go: NewTranspositionTable, Read, Write, val, Used, WriteLimited -> Model.TT"],
 )
 
@@ -423,7 +443,7 @@ PROPS["C18"] = dict(
     modules=["Morlock.Props.C18"],
     streams=["c18"],
     timeout=dict(quick=900, thorough=6000),
-    level_text="Lean theorems (full): function_of_game - two games related by a simulation that preserves what a node reports (drawn?, ply, moves, in check?, evaluation; NOT the hash) "
+    level_text="Lean theorems (for the table-free search model; repeatability itself is `rfl` there - a pure function has no hidden state - so that part of the property rests on the TIE: the model agrees with the code on repeated, interleaved and concurrent runs): function_of_game - two games related by a simulation that preserves what a node reports (drawn?, ply, moves, in check?, evaluation; NOT the hash) "
                "give identical score, PV, node and poll counts at every depth and window when no table is used (hash_irrelevant); seed_independent - boards built by the same moves "
                "with two different Zobrist tables are such a simulation (the reported draw results coincide: derived from C05.draw_iff_good on both sides, not assumed), hence the "
                "search results are equal; state_irrelevant / repeatable_threaded - a search run after any other searches (any game) reports the same result as when run first; "
@@ -431,17 +451,23 @@ PROPS["C18"] = dict(
                "board unchanged (C08), analysis_sees_the_game - the search on the rebased fork equals the search on the engine's own world, analyze_pure. Tie: each search (plain, "
                "turochamp, sargon, bernstein wiring) repeated, with three Zobrist seeds, after and alongside other searches: identical (nodes, score, PV); analysis parked inside an "
                "evaluation while the engine's game moves on; noise reproducible from the seed.",
-    level_note="Trusted: Lean kernel. seed_independent_reachable discharges the GoodStep hypothesis for every game played with generated moves from a WFplay start (goodGen_of_wf, treeCheck_of_wf). Data races between an unwinding halted search and its successor: race detector (thorough). The historical "
-               "evaluators are not transcribed: their determinism is decided by repetition.",
+    level_note="Trusted: Lean kernel. seed_independent_reachable discharges the GoodStep hypothesis for every game played with generated moves from a WFplay start (goodGen_of_wf, treeCheck_of_wf). Data races between an unwinding halted search and its successor: race detector (quick: SARGON supersede; thorough: more). "
+               "The historical evaluators are transcribed (C20: BERNSTEIN, SARGON incl. its per-board reference values - the shared state repaired in 353417e -, TUROCHAMP incl. independence of Go's map order); "
+               "their wiring into the search is exercised by repetition, seeds and superseding searches.",
     technique="Lean 4 proof (simulation congruence for alpha-beta/quiescence; C05/C07/C08 for seed independence and fork isolation) + differential repetition / seeds / concurrency / gated isolation",
     rule="16 det scripts x 4 engine kinds (10 searches each) + 12 isolation scenarios (gate 30-330, hash 0/1) + 6 noise scripts; non-trivial = distinct script",
-    partial=["historical evaluators by repetition only"],
+    partial=["noise reproducibility (no noise in the model), concurrent use of several engines, and the searches of the historical wirings: streams and race detector only",
+             "hash seed with a FRESH non-empty table: seed_independent* is about table-free searches; with a table only the score follows (C11.transparent on both sides + table-free seed independence) and that composition is not "
+             "stated as a theorem; node counts / PVs across seeds with a table are not claimed (slot collisions differ)",
+             "repeatable / repeatable_after / analyze_pure restate that the model is a pure function: the content is in function_of_game*, seed_independent*, state_irrelevant, analysis_isolated, analysis_sees_the_game"],
     modelled=["engine/engine.go Analyze (fork), board.Fork, search (pure model)"],
 )
 
 PROPS["C20"] = dict(
     modules=["Morlock.Props.C20", "Morlock.Props.C20Bernstein", "Morlock.Props.C20Sargon", "Morlock.Props.C20Turochamp", "Morlock.Props.C20TurochampFlt",
-             "Morlock.Props.C20Books", "Morlock.Props.Flt", "Morlock.Props.GenTieEngines", "Morlock.Props.GenTieTurochamp", "Morlock.Props.C06", "Morlock.Props.C01"],
+             "Morlock.Props.C20Books", "Morlock.Props.Flt", "Morlock.Props.GenTieEngines", "Morlock.Props.GenTieTurochamp", "Morlock.Props.C06", "Morlock.Props.C01",
+             "Morlock.Props.Audit.C20TuroA", "Morlock.Props.Audit.C20TuroC", "Morlock.Props.Audit.C20TuroE", "Morlock.Props.Audit.C20MirrorI",
+             "Morlock.Props.Audit.C20Bsb1", "Morlock.Props.Audit.C20Bsb2", "Morlock.Props.Audit.C20Bsb3", "Morlock.Props.Audit.C20Bsb6", "Morlock.Props.Audit.C20Bsb7"],
     streams=["c20", "flt", "bernstein", "sargon", "turochamp", "books"],
     level_text="Lean theorems. Rules: the colour mirror is an involution and commutes with attacks, check, pseudo-legal and legal move generation, making a move and perft on every position "
                "with at most one king per side (C20.*_mirror; the hypothesis is shown necessary), lifted to the bitboard generator (model_legalMoves_mirror). Floating point: Model.Flt is an exact "
@@ -449,19 +475,23 @@ PROPS["C20"] = dict(
                "representable values, finite below 2^emax, that bit patterns are injective, that sqrt is correctly rounded and monotone. Generic material: equals the reference balance and is "
                "colour-blind. BERNSTEIN (eval.go, exchange.go, search.go transcribed function by function): Evaluate >= 1 always, every term bounded, Eval.Evaluate is a finite float32 for every "
                "represented position with both kings and 0 <= factor <= 10^4 with NO floating-point hypothesis left (eval_total_closed), it panics exactly when a side has no king; "
-               "FindPlausibleMoves returns only legal non-under-promotion moves, each once, non-empty whenever a legal move exists, a permutation of them when castling is not possible; the "
+               "on every well-formed position (WF) FindPlausibleMoves returns only legal non-under-promotion moves, each once, non-empty whenever a legal move exists, a permutation of them when castling is not possible; the "
                "truncated table is a prefix within the limit and non-empty; FindCapture = exactly the attackers of the square by the reference, each once; Eval.Evaluate is colour-blind on every "
                "well-formed position, also with an e.p. target (eval_mirror; the opponent's Mobility then counts phantom e.p. captures - opponent_mobility_phantoms - which mirror pawn by pawn). "
                "SARGON (eval.go, exchange.go, search.go, pkg/eval/pins.go transcribed): Points.Evaluate is total with explicit bounds on every represented position, every loop terminates within "
                "its fuel, no index error; FindPins returns exactly the pins of the reference ray geometry; FindAttackers is sound (direct attackers complete); the per-search reference values "
                "are isolated per board (root_after_reset_other: the repaired 353417e behaviour); the under-promotion filter is C20.pick. Books: engine.NewBook, for EVERY list of lines, either fails "
                "or returns a book in which every reply is a legal move (also of the reference) of a position reachable from the start whose stripped FEN is the key (newBook_sound, newBook_rejects); "
-               "the extracted BERNSTEIN lines build successfully; all 21 SARGON entries are legal replies (sargon_book_legal); Find depends only on the first four FEN fields. "
+               "the extracted BERNSTEIN lines build successfully; the SARGON book has 21 entries (sargon_book_complete) and every reply equals - in origin, destination and promotion, the fields the "
+               "hand-built literals carry - a legal move of the position it is keyed on (sargon_book_legal); Find depends only on the first four FEN fields. "
                "TUROCHAMP (eval.go, quiescence.go transcribed): material >= 1/2 so no zero divisor; Material.Evaluate, PositionPlay (for EVERY iteration order of its Go map) and Eval.Evaluate are "
-               "finite with explicit bounds on every well-formed position (evaluate_finite, no floating-point hypothesis left); the considerable moves are exactly the generated moves passing the "
-               "transcribed test, a duplicate-free sublist of the legal moves; material and the castling / check / defender / king-safety / pawn-credit terms are colour-blind; "
-               "positionPlay_order_dependent: PositionPlay itself depends on the map order by one ulp (kernel-evaluated witness, also observed on the real code) while Eval.Evaluate, which rounds it to "
-               "two decimals, had one value in every case run (order independence and the mirror of the mobility terms are not yet theorems). Constants of all three engines are regenerated "
+               "finite with explicit bounds on every well-formed position, for EVERY iteration order of both maps (positionPlay_finite, Audit.C20TuroE.evaluateCoreOrd_finite; no floating-point "
+               "hypothesis left); the considerable moves are a duplicate-free sublist of the legal moves (considerable_sound, _nodup, _total); positionPlay_order_dependent: PositionPlay itself "
+               "depends on the map order by one ulp (kernel-evaluated witness, also observed on the real code), but Eval.Evaluate - which rounds it to two decimals - returns the SAME float32 "
+               "for every two orders (evaluate_order_independent, by error analysis: every summation order stays within 2^-10 of the exact multiple of 1/10; needs Sane: at most 16 men a side, pawns "
+               "on ranks 2-7 - every position reachable in play); the whole evaluation is colour-blind, for all orders, on Sane positions without check and without an e.p. target "
+               "(evaluate_mirror_quiet; mobility_mirror, mirrorGap_closed), and with a check / e.p. target up to MirrorGap for the side NOT to move (evaluate_mirror_mover; instantiated with an e.p. "
+               "target in Audit.C20TuroA). Constants of all three engines are regenerated "
                "from the source (Gen/Engines.lean) and re-proved equal to the models' (GenTieEngines, GenTieTurochamp). "
                "Tie: bit-for-bit float arithmetic (flt), all components of both evaluations, plausible tables, pins, attacker stacks, exchange values, complete book contents (bernstein, sargon, books "
                "turochamp streams: impl = model exactly; pins, direct attackers, control / king-defence / material / attackers / safety and the filter properties also against the reference), "
@@ -474,12 +504,14 @@ PROPS["C20"] = dict(
     rule="c20: 150/6000 positions with histories + curated squeezed positions (mirror, finiteness, filter legality, book walk); flt: 4.6k/400k float operations incl. every sqrt the evaluators can ask for; "
          "bernstein: ~950/20k evaluations+tables on curated and random positions with histories; sargon: ~290/12k evaluations with all components; turochamp: ~390/9k evaluations with all components and considerable lists; books: ~1.1k/25k book constructions and lookups; "
          "non-trivial = distinct script / operation",
-    partial=["TUROCHAMP: colour-blindness of the whole evaluation and its independence of the Go map order are decided by the streams (mirror pairs, all orders enumerated by the harness copy), "
-             "proved only for the parts listed",
+    partial=["TUROCHAMP colour-blindness with a check or an e.p. target: the mate-threat / castle / mobility terms of the side not to move (MirrorGap) are a hypothesis there, decided by the streams; "
+             "order independence is proved for Sane positions (not for decodable positions with 17+ men a side or back-rank pawns)",
+             "BERNSTEIN finiteness is proved for 0 <= factor <= 10^4 (the shipped factor is 20; other values evaluate fine - kernel-checked samples - but are outside the theorem)",
+             "SARGON's model carries exact integers where Go carries float32: that they coincide (all values below 2^23) is a numeral fact plus the stream, not a theorem about Flt operations",
              "SARGON FindAttackers x-ray chains proved sound, complete only for direct attackers",
              "Go's unstable sort.Slice above 12 elements not modelled (values compared, no difference ever observed)"],
     modelled=["cmd/bernstein/bernstein/{eval,exchange,search}.go -> Model.Bernstein; pkg/eval/capture.go -> Model.EvalCapture; cmd/sargon/sargon/{eval,exchange,search}.go -> Model.Sargon; "
-              "pkg/eval/pins.go -> Model.EvalPins; cmd/turochamp/turochamp/{eval,quiescence}.go -> Model.Turochamp; pkg/engine/book.go, cmd/*/book.go, fen.Strip -> Model.Book (+ Gen.Books); eval/material.go -> Model (materialPawns); float32/float64 -> Model.Flt"],
+              "pkg/eval/pins.go -> Model.EvalPins; cmd/turochamp/turochamp/{eval,quiescence}.go -> Model.Turochamp; pkg/engine/book.go, cmd/*/book.go, fen.Strip -> Model.Book (+ Gen.Books); eval/eval.go Material -> Model (materialPawns); float32/float64 -> Model.Flt"],
 )
 
 
